@@ -277,7 +277,8 @@ class MySQLProvider(DBAPIProvider):
                 sql = 'SET foreign_key_checks = 0'
                 if core.local.debug: log_orm(sql)
                 cursor.execute(sql)
-            cache.saved_fk_state = bool(fk)
+            if fk or cache.saved_fk_state is None:  # a later transaction of the same session sees the checks already off
+                cache.saved_fk_state = bool(fk)
             cache.in_transaction = True
         cache.immediate = True
         if db_session is not None and db_session.serializable:
